@@ -105,7 +105,7 @@ def judge(item, out):
             if L['dir'] != 'solve':
                 if abs(lin.py_obj(L, vals) - val) > TOL * 10 * (1 + abs(val)):
                     res['fails'].append(dict(tag, ob='reported-objective', point=None))
-                if r.get('status') == 'Optimal':
+                if r.get('status') == 'Optimal' and not item['lm'].get('big'):
                     gq = Fraction(float(gap)) if gap is not None else Fraction(0)
                     m = sem.Q(TOL * (1 + abs(val)) + gq * (abs(val) + abs(Fraction(float(L['off'])))))
                     better = (g < sem.Q(val) - m) if L['dir'] == 'min' else (g > sem.Q(val) + m)
@@ -223,6 +223,30 @@ def gap_family():
     return out
 
 
+def midsearch_family(t):
+    """MILPs large enough (40-60 binaries, 5 knapsack rows, a free continuous variable) that a limit of tens of
+    milliseconds fires after the first incumbent and before the proof: the Feasible label, the returned point and the
+    reported objective of an interrupted-but-feasible run. (Optimality of a result labelled Optimal is not decided for
+    these: only the obligations about the returned point and the label.)"""
+    import random
+    r = random.Random(77)
+    out = []
+    for _ in range(6 if t == 'quick' else 30):
+        nb = r.randint(40, 60)
+        kinds = [gen.D('Boolean')] * nb + [gen.D('Real', '-inf', 'inf')]
+        rows = []
+        for _k in range(5):
+            w = [r.randint(5, 60) for _ in range(nb)] + [0]
+            rows.append((w, '<=', sum(w) // 3))
+        rows.append(([0] * nb + [1], '>=', -7.5))
+        rows.append(([0] * nb + [1], '<=', 3))
+        obj = [r.randint(10, 99) for _ in range(nb)] + [r.choice([-2, 2, -1.5])]
+        s = gen.lm_spec(kinds, rows, obj, 'max', off=r.choice([0, 1.5]))
+        s['big'] = True
+        out.append(s)
+    return out
+
+
 def family(t, sd):
     if t == 'quick':
         specs = [s for s in gen.l_seeded(71, 4000, offsets=True, satisfy=True) if any(v[1]['k'] in ('Boolean', 'Int') for v in s['vars'])][:1200]
@@ -246,6 +270,10 @@ def family(t, sd):
         ops += [('microlp_builder', o) for o in bo[:: 3] if o['gap'] not in INVALID]
         ops += [('microlp_builder', {'gap': g, 'limit_ns': (None, 0, 1000000)[(i + k) % 3]}) for k, g in enumerate(INVALID)]
         items.append({'idx': i, 'lm': s, 'ops': ops})
+    for s in midsearch_family(t):
+        lims = [20000000, 100000000, 400000000]
+        ops = [('milp_with', {'gap': None, 'limit_ns': l}) for l in lims] + [('microlp_builder', {'gap': '0', 'limit_ns': lims[1]})]
+        items.append({'idx': len(items), 'lm': s, 'ops': ops})
     return items
 
 
